@@ -1113,6 +1113,6 @@ Example aggr_put_equiv_example :
   dk_read (fold_left spec_put [r0; r1] empty_disk) 512 48 /\
   dk_read (fold_left spec_put [r0; r1] empty_disk) 536 12 = [0;0;0;4; 0;0;0;5; 0;0;0;6].
 Proof.
-  cbv zeta. split; [|split; reflexivity].
+  cbv zeta. split; [|split; vm_compute; reflexivity].
   repeat constructor; cbn; try lia; try (repeat constructor; lia); intros _; reflexivity.
 Qed.
